@@ -48,6 +48,7 @@ package io
 //@   stable dec.reader
 //@   modifies @DECWIN, dec.buf[*]
 //@   ensures [reader_mode_buffer_has_room] dec.reader != nil ==> len(dec.buf) > 0
+//@   ensures [buffer_is_kept_or_fresh] same(dec.buf, old(dec.buf)) || (old(dec.buf) == nil && isnew(arr(dec.buf)) && off(dec.buf) == 0)
 //@   ensures [memory_mode_is_end_of_input] dec.reader == nil ==> !result && dec.head == dec.tail && dec.tail == old(dec.tail) && dec.Error != nil && same(dec.buf, old(dec.buf))
 //@   ensures [refill_continues_the_stream] dec.reader != nil && result ==> dec.head == 0 && 0 < dec.tail && dec.tail <= len(dec.buf) &&
 //@       ghost.rpos[ival(dec.reader)] == old(ghost.rpos[ival(dec.reader)]) + dec.tail &&
@@ -91,7 +92,7 @@ package io
 //@   let lp0 = ghost.rpos[ival(dec.reader)] - dec.tail + dec.head
 //@   modifies @DECWIN, dec.buf[*]
 //@   atmake [allocation_bounded_by_loaded_input] makecap <= dec.tail - dec.head + len(dec.buf)
-//@   loop 1 invariant n > 0 && len(data) + n == n0 && safe && 0 <= dec.tail && dec.tail <= len(dec.buf) && isnew(arr(data))
+//@   loop 1 invariant n > 0 && len(data) + n == n0 && safe && 0 <= dec.tail && dec.tail <= len(dec.buf) && isnew(arr(data)) && arr(data) != arr(dec.buf)
 //@   loop 1 invariant dec.reader != nil ==> ghost.rpos[ival(dec.reader)] == lp0 + len(data) && len(dec.buf) > 0
 //@   loop 1 invariant dec.reader == nil ==> same(dec.buf, old(dec.buf)) && dec.tail == old(dec.tail)
 //@   loop 1 invariant old(dec.Error) != nil ==> dec.Error != nil
